@@ -224,7 +224,7 @@ func (r *Reader) feed(src io.Reader) {
 		}
 
 		if err == io.EOF {
-			leftover = append(leftover, buf...)
+			// What is left in buf has already been moved to leftover
 			break
 		}
 
